@@ -43,6 +43,20 @@ def run(ctx: Ctx) -> None:
                 f'generate_draws({", ".join(args)})' + ('' if ok else (': the names come from a dictionary (order of appearance in the formulas); column i of the table must belong to draws.names[i], the sorted order that defines drawId'
                                                                          if from_dict else ': the arguments are not in the expected form (draw_types(), draws.names, n)')), str(args), positive=from_dict)
     ctx.need(n >= 2, 'at least two callers of generate_draws')
+    # the table is regenerated whenever ids are prepared for a formula with draws: the only admissible guards are "the formula needs draws" and "there is a database"
+    prep_ = prog.func('expressions.idmanager', 'IdManager.prepare')
+    gcalls = [c for c in walk_no_nested(prep_.node) if isinstance(c, ast.Call) and call_name(c) == 'generate_draws']
+    for c in gcalls:
+        guards = []
+        for i_ in walk_no_nested(prep_.node):
+            if isinstance(i_, ast.If) and any(x is c for st_ in i_.body for x in ast.walk(st_)):
+                guards += [unparse(v) for v in (i_.test.values if isinstance(i_.test, ast.BoolOp) and isinstance(i_.test.op, ast.And) else [i_.test])]
+        extra = [g_ for g_ in guards if g_ not in ('self.requires_draws', 'self.database is not None', 'database is not None')]
+        okg = 'self.requires_draws' in guards and not extra
+        ctx.add('C10.R1', 'IdManager.prepare:regenerates', okg if (okg or ('self.requires_draws' in guards and extra)) else None, (prep_.file, c.lineno),
+                'the draws are generated every time the ids of a formula with draws are prepared' if okg else
+                (f'the draws are generated only when `{" and ".join(extra)}` also holds: a table left by another formula (other variables, other types) is reused, so a variable is averaged over a series that is not its own' if extra
+                 else 'the condition under which the draws are generated is not in the expected form'), 'regenerate', positive=bool(extra))
     idm = prog.cls('expressions.idmanager', 'IdManager')
     dt = idm.methods['draw_types']
     rets = [x for x in walk_no_nested(dt.node) if isinstance(x, ast.Return)]
@@ -110,6 +124,14 @@ return self.theDraws
         ok = seqv == names_p and lenv == names_p
         if not ok:
             why = f'the columns of the draw table are laid out over {seqv} (length {lenv}): column i must belong to {names_p}[i], the sorted names by which the expressions address their series'
+    if bg is None:
+        # which sequence numbers the slots of the list that becomes the table?
+        for lp_ in [x for x in walk_no_nested(gd.node) if isinstance(x, ast.For) and isinstance(x.iter, ast.Call) and call_name(x.iter) == 'enumerate' and x.iter.args]:
+            src_ = unparse(inline_locals(gd.node, x_)) if (x_ := lp_.iter.args[0]) is not None else ''
+            fills = any(isinstance(a_, ast.Assign) and isinstance(a_.targets[0], ast.Subscript) and isinstance(lp_.target, ast.Tuple) and unparse(a_.targets[0].slice) == unparse(lp_.target.elts[0]) for a_ in ast.walk(lp_))
+            if fills and src_ != names_p and (types_p in src_):
+                ok = False
+                why = f'slot i of the table is filled for the i-th entry of {src_} (the order of the dictionary of types, i.e. of appearance in the formulas): column i must belong to {names_p}[i], the sorted names by which the expressions address their series'
     ctx.add('C10.R1', 'Database.generate_draws:columns', ok, gd, 'column i holds the series of the i-th name, generated with the generator of that name\'s declared type (native, else user, else error); the variable axis is moved last' if ok else why, 'columns', positive=ok is False)
     from .c01 import leaf_tables
 
